@@ -46,6 +46,10 @@ def tt_layer(E, s):
         layer(x)
         sd = {k: E.tensor('sd_' + k.replace('.', '_'), list(v.shape), s['dtype']) for k, v in layer.state_dict().items()}
         layer.load_state_dict(sd)
+    if s.get('first_batch') is not None:
+        # the same layer object was used before with a different number of batch dimensions
+        x0 = E.tensor('x0', list(s['first_batch']) + list(s['size_in']), run_dt)
+        layer(x0)
     y = layer(x) if s.get('call') else layer.forward(x)
     cores = [c for c in layer.cores]
     W = dense(E, [c.detach() for c in cores])      # size_out... x size_in...
